@@ -9,7 +9,7 @@ from ..gen import chunk
 ID = "C07"
 LEVEL = "exploration"
 RULE = ("scenario = start state {empty, p1->X, p1,p2->X, X unreferenced, p1->missing object} + a pair of calls from a "
-        "14-call menu (store_object for p1/p2/p3 with content X/Y, with a wrong checksum, without pid; tag_object; "
+        "14-call menu (store_object for p1 / p2 / p1.v2 (a pid that has another as prefix) with content X/Y, with a wrong checksum, without pid; tag_object; "
         "delete_object; delete_if_invalid_object right/wrong) that share a pid or a cid directly or through the "
         "start state (+3 independent control pairs) - every such pair; plus sampled triples. Each scenario is run "
         "on the REAL code under a cooperative scheduler that owns every shared file-system call and every "
